@@ -130,3 +130,35 @@ func ZZAcceptedIntervals() (min, max time.Duration) {
 	zzAssume(err == nil)
 	return ifi.MinInterval, ifi.MaxInterval
 }
+
+// ZZFullInterface returns an accepted advertising interface that carries one
+// stanza of every kind (static, wildcard and deprecated prefixes; static and
+// wildcard routes; rdnss with wildcard and a static server; dnssl; mtu; source
+// LLA; captive portal; pref64), parsed by the real parser. Lifetimes are
+// symbolic values the parser accepts.
+func ZZFullInterface(name string, epoch time.Time) Interface {
+	var raw rawInterface
+	raw.Advertise = true
+	raw.Managed, raw.OtherConfig = zzNondetBool(name+".managed"), zzNondetBool(name+".other")
+	dl, _ := zzValueKey(name + ".default_lifetime")
+	raw.DefaultLifetime = &dl
+	v1, _ := zzValueKey(name + ".p1.valid")
+	v2, _ := zzValueKey(name + ".p3.valid")
+	pf3, _ := zzValueKey(name + ".p3.preferred")
+	raw.Prefixes = []rawPrefix{
+		{Prefix: "2001:db8:1::/64", ValidLifetime: &v1},
+		{Prefix: "::/64"},
+		{Prefix: "2001:db8:3::/64", ValidLifetime: &v2, PreferredLifetime: &pf3, Deprecated: true},
+	}
+	rl, _ := zzValueKey(name + ".r1.lifetime")
+	raw.Routes = []rawRoute{{Prefix: "2001:db8:ffff::/48", Lifetime: &rl, Preference: "high"}, {Prefix: "::/0"}}
+	dlf, _ := zzValueKey(name + ".rdnss.lifetime")
+	raw.RDNSS = []rawRDNSS{{Lifetime: &dlf, Servers: []string{"::", "2001:db8::53"}}}
+	raw.DNSSL = []rawDNSSL{{DomainNames: []string{"lan.example.com", "example.org"}}}
+	raw.MTU = 1500
+	raw.CaptivePortal = "https://portal.example.com/"
+	raw.PREF64 = []rawPREF64{{}}
+	ifi, err := parseInterface(name, raw, epoch)
+	zzAssume(err == nil)
+	return *ifi
+}
